@@ -26,7 +26,8 @@ func C19_sessions() {
 	wantS := vServerSession(tok, payload, key)
 	wantC := vClientSession(payload)
 	// oracle for the sequential run
-	vAssert(vAnd(len(wantS) > 2, vEqBytes(wantS[:2], tok)), "sessions.server_protocol")
+	late := append(append(append([]byte{}, tok...), tok...), "permessage-deflate="...)
+	vAssert(vAnd(len(wantS) > len(late), vEqBytes(wantS[len(wantS)-len(late):], late)), "sessions.server_handshake_results_observed_late")
 	vAssert(vAnd(len(wantC) >= 4+3, vEqBytes(wantC[:4], []byte("chat"))), "sessions.client_protocol")
 	if len(wantC) >= 7 {
 		vAssert(vEqBytes(wantC[4:7], payload), "sessions.client_payload_on_wire")
